@@ -162,6 +162,10 @@ func NewFullRT(h host.Host, protocolPrefix protocol.ID, options ...Option) (*Ful
 		EnableValues:     true,
 		ProtocolPrefix:   protocolPrefix,
 		MsgSenderBuilder: net.NewMessageSenderImpl,
+		// without a default, a caller that passes no BucketSize option (allowed
+		// on any prefix but the Amino one) gets bucket size 0, and
+		// GetClosestPeers never terminates on a non-empty table
+		BucketSize: amino.DefaultBucketSize,
 	}
 
 	if err := dhtcfg.Apply(fullrtcfg.dhtOpts...); err != nil {
